@@ -16,6 +16,7 @@ warnings.filterwarnings("ignore")
 sys.path.insert(0, os.path.join(os.path.dirname(os.path.abspath(__file__)), "..", "lib"))
 from kfield import K, qmul, recognise, solve  # noqa: E402
 from scipy.optimize import linprog  # noqa: E402
+import c07cert  # noqa: E402  (cover trees: the axis fundamental zone of Gl & Gr is a fundamental domain of that group)
 
 from orix.quaternion import OrientationRegion  # noqa: E402
 from orix.quaternion import symmetry as S  # noqa: E402
@@ -57,7 +58,75 @@ def exact_direction(n, cands):
     return None
 
 
-summary = {"pairs": 0, "targets": 0, "failed": []}
+def qconj(q):
+    return (q[0], -q[1], -q[2], -q[3])
+
+
+def qeq(p, q):
+    return all(a == b for a, b in zip(p, q))
+
+
+def existence_cert(s1, s2, N, D):
+    """ingredients of "every orbit has a member inside the region":
+       H  = the common operations of the two (proper) groups (h in Gl with ~h in +-Gr),
+       for every kept normal either None (pure-vector normal = a face of the axis fundamental zone) or its index in
+       the large cell [1+d0; 1-d0; 1+d1; ...], and a cover tree: the H-images of the cone of the pure-vector normals
+       cover R^3."""
+    A = [kq(q) for q in s1.data.reshape(-1, 4)]
+    B = [kq(q) for q in s2.data.reshape(-1, 4)]
+    H = [h for h in A if any(qeq(qconj(h), b) or qeq(qconj(h), qneg(b)) for b in B)]
+    F = [tuple(n[1:]) for n in N if n[0].is_zero()]
+    lc = []
+    for n in N:
+        if n[0].is_zero():
+            lc.append(None)
+            continue
+        idx = None
+        for k, d in enumerate(D):
+            if qeq(n, qadd(ONE, d)):
+                idx = 2 * k
+            elif qeq(n, qadd(ONE, qneg(d))):
+                idx = 2 * k + 1
+        if idx is None:
+            raise SystemExit(f"kept normal is not a large-cell normal for ({s1.name}, {s2.name})")
+        lc.append(idx)
+    # for every distinguished point d a pair (i, j) with d = +- ~(B[j] * A[i])
+    W = []
+    Af = np.array([kf(a) for a in A]); Bf = np.array([kf(b) for b in B])
+    for d in D:
+        df = kf(d)
+        hit = None
+        for j in range(len(B)):
+            for i in range(len(A)):
+                c = np.array([float(x) for x in qconj(tuple(qmulf(Bf[j], Af[i])))])
+                if abs(abs(np.dot(c, df)) - 1) < 1e-9:
+                    ce = qconj(qmul(B[j], A[i]))
+                    if qeq(d, ce) or qeq(d, qneg(ce)):
+                        hit = (i, j)
+                        break
+            if hit:
+                break
+        if hit is None:
+            raise SystemExit(f"distinguished point is not a product of operations for ({s1.name}, {s2.name})")
+        W.append(hit)
+    Hops = [(h, False) for h in H]
+    Hf = []
+    for r in Hops:
+        cols = [c07cert.kf(c07cert.act_k(r, e)) for e in ((K(1), K(0), K(0)), (K(0), K(1), K(0)), (K(0), K(0), K(1)))]
+        Hf.append(np.array(cols).T)
+    stats = {"splits": 0, "leaves": 0}
+    tree = c07cert.build_tree(Hops, Hf, F, [c07cert.kf(f) for f in F], [], [], stats)
+    return H, lc, tree, stats, W
+
+
+def qmulf(p, q):
+    a, b, c, d = p
+    e, f, g, h = q
+    return (a * e - b * f - c * g - d * h, b * e + a * f - d * g + c * h,
+            c * e + d * f + a * g - b * h, d * e - c * f + b * g + a * h)
+
+
+summary = {"pairs": 0, "targets": 0, "failed": [], "exist_leaves": 0, "exist_failed": []}
 files = []
 for i1, s1 in enumerate(PROPER):
     recs = []
@@ -120,7 +189,13 @@ for i1, s1 in enumerate(PROPER):
                 pair.append(list(zip(supp, lam)))
             certs.append(pair)
         summary["pairs"] += 1
-        recs.append((s1.name, s2.name, N, D, certs, Nf.tolist()))
+        try:
+            ex = existence_cert(s1, s2, N, D)
+            summary["exist_leaves"] += ex[3]["leaves"]
+        except c07cert.NotADomain as e:
+            summary["exist_failed"].append([s1.name, s2.name, [float(x) for x in e.data]])
+            ex = None
+        recs.append((s1.name, s2.name, N, D, certs, Nf.tolist(), ex))
     # ---- emit one Coq file per first group
     fn = f"RegionCerts{i1:02d}.v"
     with open(os.path.join(OUT, fn), "w") as f:
@@ -129,7 +204,7 @@ for i1, s1 in enumerate(PROPER):
         f.write("Import ListNotations. Open Scope string_scope.\n")
         f.write(f"Definition region_certs_{i1:02d} : list region_cert := [\n")
         rows = []
-        for (n1, n2, N, D, certs, _) in recs:
+        for (n1, n2, N, D, certs, _, _ex) in recs:
             def cc(c):
                 if c is None:
                     return "[]"
@@ -139,11 +214,32 @@ for i1, s1 in enumerate(PROPER):
                         "; ".join(coq_q(q) for q in D) + "]\n    " + cs)
         f.write(";\n".join(rows) + "].\n")
     files.append(fn)
+    # ---- existence certificates, same order
+    with open(os.path.join(OUT, f"RegionExist{i1:02d}.v"), "w") as f:
+        f.write("(* GENERATED by tools/impl/c05cert.py by running orix from /repo -- do not edit. *)\n")
+        f.write("From Coq Require Import ZArith QArith List String.\nFrom Verif Require Import Scalar KField Quat CertCheck CoverCheck ExistCheck.\n")
+        f.write("Import ListNotations. Open Scope string_scope.\n")
+        f.write(f"Definition region_exist_{i1:02d} : list exist_cert := [\n")
+        rows = []
+        for r in recs:
+            ex = r[6]
+            if ex is None:
+                rows.append("  mkEC [] [] [] (CLeaf 0%nat [])")
+                continue
+            H, lc, tree, _, W = ex
+            rows.append("  mkEC [" + "; ".join(coq_q(h) for h in H) + "]\n    [" +
+                        "; ".join("None" if i is None else f"Some {i}%nat" for i in lc) + "]\n    [" +
+                        "; ".join(f"({i}%nat, {j}%nat)" for i, j in W) + "]\n    " + c07cert.coq_tree(tree))
+        f.write(";\n".join(rows) + "].\n")
     json.dump([{"l": r[0], "r": r[1], "N": r[5]} for r in recs], open(os.path.join(OUT, f"region_normals_{i1:02d}.json"), "w"))
 
 with open(os.path.join(OUT, "RegionCertsAll.v"), "w") as f:
     f.write("(* GENERATED by tools/impl/c05cert.py -- do not edit. *)\nFrom Coq Require Import List.\nImport ListNotations.\n")
     f.write("From Verif Require Import CertCheck " + " ".join(x[:-2] for x in files) + ".\n")
     f.write("Definition all_region_certs : list (list region_cert) := [" + "; ".join(f"region_certs_{i:02d}" for i in range(len(files))) + "].\n")
+with open(os.path.join(OUT, "RegionExistAll.v"), "w") as f:
+    f.write("(* GENERATED by tools/impl/c05cert.py -- do not edit. *)\nFrom Coq Require Import List.\nImport ListNotations.\n")
+    f.write("From Verif Require Import ExistCheck " + " ".join("RegionExist" + x[11:-2] for x in files) + ".\n")
+    f.write("Definition all_region_exist : list (list exist_cert) := [" + "; ".join(f"region_exist_{i:02d}" for i in range(len(files))) + "].\n")
 summary["files"] = files
 print("@@JSON@@" + json.dumps(summary))
